@@ -257,7 +257,20 @@ func (matrix *DenseIntMatrix) Tip() {
   matrix.rowMax, matrix.colMax = matrix.colMax, matrix.rowMax
 }
 func (matrix *DenseIntMatrix) AsVector() Vector {
-  return DenseIntVector(matrix.values)
+  if matrix.transposed || matrix.rowMax > matrix.rows || matrix.colMax > matrix.cols {
+    // a view does not own a contiguous row-major block: return its
+    // elements (a copy)
+    n, m := matrix.Dims()
+    v := make(DenseIntVector, n*m)
+    for i := 0; i < n; i++ {
+      for j := 0; j < m; j++ {
+        v[i*m + j] = matrix.values[matrix.index(i, j)]
+      }
+    }
+    return v
+  } else {
+    return DenseIntVector(matrix.values)
+  }
 }
 func (matrix *DenseIntMatrix) storageLocation() uintptr {
   return uintptr(unsafe.Pointer(&matrix.values[0]))
@@ -349,7 +362,20 @@ func (matrix *DenseIntMatrix) IsSymmetric(epsilon float64) bool {
   return true
 }
 func (matrix *DenseIntMatrix) AsConstVector() ConstVector {
-  return DenseIntVector(matrix.values)
+  if matrix.transposed || matrix.rowMax > matrix.rows || matrix.colMax > matrix.cols {
+    // a view does not own a contiguous row-major block: return its
+    // elements (a copy)
+    n, m := matrix.Dims()
+    v := make(DenseIntVector, n*m)
+    for i := 0; i < n; i++ {
+      for j := 0; j < m; j++ {
+        v[i*m + j] = matrix.values[matrix.index(i, j)]
+      }
+    }
+    return v
+  } else {
+    return DenseIntVector(matrix.values)
+  }
 }
 /* implement ScalarContainer
  * -------------------------------------------------------------------------- */
